@@ -31,15 +31,34 @@ func (a *Num) Cmp(b *Num) int {
 	return a.X.Cmp(&b.X)
 }
 
+// exactContext performs additions, subtractions and multiplications
+// without rounding (a precision of 0 disables rounding in apd).
+// It is used when both operands are integers, as integer arithmetic
+// must be exact regardless of the number of digits.
+var exactContext = apd.BaseContext.WithPrecision(0)
+
+func bothInt(a, b *Num) bool {
+	return a.K == IntKind && b.K == IntKind
+}
+
 func (c *OpContext) Add(a, b *Num) Value {
+	if bothInt(a, b) {
+		return numOp(c, exactContext.Add, a, b)
+	}
 	return numOp(c, internal.BaseContext.Add, a, b)
 }
 
 func (c *OpContext) Sub(a, b *Num) Value {
+	if bothInt(a, b) {
+		return numOp(c, exactContext.Sub, a, b)
+	}
 	return numOp(c, internal.BaseContext.Sub, a, b)
 }
 
 func (c *OpContext) Mul(a, b *Num) Value {
+	if bothInt(a, b) {
+		return numOp(c, exactContext.Mul, a, b)
+	}
 	return numOp(c, internal.BaseContext.Mul, a, b)
 }
 
